@@ -30,9 +30,9 @@ pub fn content(kind: &str, n: usize) -> Vec<u8> {
             // bytes >= 144 without any repeated 3-byte sequence inside the window (so every symbol
             // is a literal and blocks are cut exactly where the compressor's own thresholds say),
             // except for one 4-byte repeat (source ~100 bytes back) 4 bytes before every multiple of
-            // P, n = 4P + 100: as P sweeps 31 740..=32 780 a match straddles every possible cut offset,
+            // P, n = 6P + 400 (the tail keeps the look-ahead full while the last of the six blocks is cut): as P sweeps 31 740..=32 780 a match straddles every possible cut offset,
             // block after block
-            let p = (n.max(104) - 100) / 4;
+            let p = (n.max(406) - 400) / 6;
             const A: usize = 112;
             let mut last_seen = vec![0u32; A * A * A];
             let mut l = Lcg(0x4870 ^ salt);
@@ -242,7 +242,7 @@ pub fn run(tier: &str) -> i32 {
         cases.retain(|c| c.0 != ki);
         for p in (31_740usize..=32_780).step_by(1) {
             for level in if th { vec![4, 5, 6, 8, 9, 10] } else { vec![4, 9] } {
-                cases.push((ki, 4 * p + 100, level, 4));
+                cases.push((ki, 6 * p + 400, level, 4));
             }
         }
     }
